@@ -488,13 +488,19 @@ impl LExec {
                     .send(RaftIndexRequest::SaveMember {
                         member: members.clone(),
                         member_after_consensus: Some(after.clone()),
-                        node_addr: Some(addrs.clone()),
+                        // addr_len 0: a membership save without an address table (what applying ClientRequest::Members sends):
+                        // the stored addresses stay as they are
+                        node_addr: if *addr_len == 0 { None } else { Some(addrs.clone()) },
                     })
                     .await;
                 match r {
                     Ok(Ok(_)) => {
                         self.m.members = Some((members.clone(), after.clone()));
-                        self.m.addrs = addrs.iter().map(|(k, v)| (*k, v.as_ref().clone())).collect();
+                        if *addr_len > 0 {
+                            self.m.addrs = addrs.iter().map(|(k, v)| (*k, v.as_ref().clone())).collect();
+                        } else {
+                            sim::count("probe.member_saved_without_addresses", 1);
+                        }
                         self.m.push_reg();
                         sim::event("ack member");
                     }
